@@ -167,8 +167,14 @@ def corpus():
         s(11, ["proceed", "write_head #100000", "proceed", "raw_try100 %s" % hx(R403), "proceed", "raw_try_response %s" % hx(R403), "proceed", "q_must_close"]),
         # F3: despite without framing header
         s(13, ["proceed", "write_head #100000", "proceed", "write_body %s #100" % hx(b"hi"), "write_body x #100", "q_can_proceed", "proceed"]),
-        # F18 known: second as_new_flow
+        # second as_new_flow on a first-hop flow: an error since the repair of F19 (the placeholder request has no absolute URI)
         s(0, ["proceed", "write_head #100000", "proceed", "raw_try_response %s" % hx(RESPONSES["redir"]), "proceed", "as_new_flow never", "as_new_flow never"]),
+        # F18 known: second as_new_flow on a flow that was itself created by following a redirect
+        s(0, ["proceed", "write_head #100000", "proceed", "raw_try_response %s" % hx(RESPONSES["redir"]), "proceed", "as_new_flow never", "follow",
+              "proceed", "write_head #100000", "proceed", "raw_try_response %s" % hx(RESPONSES["redir"]), "proceed", "as_new_flow never", "as_new_flow never"]),
+        # F19 (repaired): origin-form request, redirect followed
+        {"ops": ["new " + request_args("GET", "1.1", "", "", "/x", [(b"host", b"a.test")]), "proceed", "write_head #100000", "proceed",
+                 "raw_try_response %s" % hx(RESPONSES["redir"]), "proceed", "as_new_flow never", "proceed", "q_must_close"], "meta": {"config": 0}},
     ]
 
 
